@@ -103,7 +103,18 @@ def do_replay(pid, path):
     return 0
 
 
-TABLES_MODULE = "PsecModel.Lemmas.TablesAgree"
+def table_module(theorem):
+    """the proof module of a `Psec.Tables.*` theorem (one module per group of tables)"""
+    name = theorem.rsplit(".", 1)[-1]
+    if name.startswith("ascii_"):
+        grp = "Ascii"
+    elif "ispatch" in name:
+        grp = "Dispatch"
+    elif name.startswith(("cvv_", "pvv_", "decimalize_", "ibm_")):
+        grp = "Card"
+    else:
+        grp = "Version"
+    return "PsecModel.Lemmas.Tables." + grp
 
 
 def main():
@@ -143,30 +154,41 @@ def main():
             print("INFRA: lake build failed\n" + out[-3000:])
             return 2
 
-    # 1a. constant tables regenerated from the source (harness/tables.py) and the module that proves the model agrees with them;
-    # built apart from the property's own modules, so that a changed table breaks these obligations and nothing else
+    # 1a. constant tables regenerated from the source (harness/tables.py) and the modules that prove the model agrees with them;
+    # one module per group of tables, each built apart from the property's own modules, so that a changed table breaks the
+    # theorems about that table and nothing else
     table_obl = list(getattr(mod, "TABLE_OBLIGATIONS", []))
-    table_err = None
+    table_broken = {}      # theorem -> message
     table_info = None
+    table_mods = sorted({table_module(t) for t in table_obl})
     if table_obl:
         import tables
         tabs, terr = tables.run(core.REPO, os.path.join(core.LEAN_DIR, "PsecModel", "Generated", "Tables.lean"))
-        tok, tout = core.lake_build([TABLES_MODULE])
-        if terr:
-            table_err = "harness/tables.py could not read the source: " + terr
-        elif not tok:
+        for tm in table_mods:
+            mine = [t for t in table_obl if table_module(t) == tm]
+            if terr:
+                for t in mine:
+                    table_broken[t] = "harness/tables.py could not read the source: " + terr
+                continue
+            tok, tout = core.lake_build([tm])
+            if tok:
+                continue
             # name the theorems whose proofs no longer go through (error line -> enclosing theorem)
-            src_lines = open(os.path.join(core.LEAN_DIR, "PsecModel", "Lemmas", "TablesAgree.lean")).read().splitlines()
             failing = []
-            for m in re.finditer(r"TablesAgree\.lean:(\d+):\d+", tout):
-                for k in range(min(int(m.group(1)), len(src_lines)) - 1, -1, -1):
+            for m in re.finditer(r"(PsecModel/Lemmas/Tables/\w+\.lean):(\d+):\d+", tout):
+                try:
+                    src_lines = open(os.path.join(core.LEAN_DIR, m.group(1))).read().splitlines()
+                except OSError:
+                    continue
+                for k in range(min(int(m.group(2)), len(src_lines)) - 1, -1, -1):
                     mm = re.match(r"\s*theorem\s+(\S+)", src_lines[k])
                     if mm:
                         if mm.group(1) not in failing:
                             failing.append(mm.group(1))
                         break
-            table_err = ("Lemmas/TablesAgree does not check against the tables regenerated from the source; no longer provable: "
-                         + (", ".join(failing) or "see build output") + " (the module is compiled as a whole)")
+            for t in mine:
+                table_broken[t] = (f"{tm} does not check against the tables regenerated from the source; no longer provable: "
+                                   + (", ".join(failing) or "see build output") + " (a module is compiled as a whole)")
         table_info = {"recognised_in_source": sorted(k for k, v in (tabs or {}).items() if v is not None),
                       "unavailable": sorted(k for k, v in (tabs or {}).items() if v is None)}
 
@@ -189,11 +211,11 @@ def main():
     if not build_failed:
         aud = core.audit(pid, theorems, [getattr(mod, "AUDIT_IMPORT", props_mod if has_props else "PsecModel.Exec")] + list(getattr(mod, "EXTRA_MODULES", [])))
     if table_obl:
-        if table_err:
-            for t in table_obl:
-                aud["theorems"][t] = {"ok": False, "axioms": None, "error": table_err}
-        else:
-            aud2 = core.audit(pid + "_tables", table_obl, [TABLES_MODULE])
+        for t, msg in table_broken.items():
+            aud["theorems"][t] = {"ok": False, "axioms": None, "error": msg}
+        rest = [t for t in table_obl if t not in table_broken]
+        if rest:
+            aud2 = core.audit(pid + "_tables", rest, sorted({table_module(t) for t in rest}))
             aud["theorems"].update(aud2["theorems"])
             aud["checker_cmd"] = (aud.get("checker_cmd") or "") + " ; python3 harness/tables.py && " + aud2["checker_cmd"]
         theorems += table_obl
@@ -207,7 +229,7 @@ def main():
         broken.append("forbidden construct in Lean sources: " + h)
     lc = None
     if a.tier == "thorough" and not build_failed and has_props:
-        lc = core.leanchecker([props_mod] + extra_mods + ([TABLES_MODULE] if table_obl and not table_err else []))
+        lc = core.leanchecker([props_mod] + extra_mods + [tm for tm in table_mods if not any(table_module(t) == tm for t in table_broken)])
         if lc["rc"] != 0:
             broken.append("leanchecker rejected the compiled modules of " + props_mod + ": " + lc["tail"][-400:])
 
